@@ -22,11 +22,11 @@ OPS = ['var', 'apply', 'applyq', 'ite', 'quantify', 'let_const', 'let_func', 'le
 
 
 def bounds(tier):
-    return dict(variables='4-5', contexts_per_op=3 if tier == 'quick' else 40, trigger_positions='all k <= 12, else 12 sampled')
+    return dict(variables='4-5', contexts_per_op=3 if tier == 'quick' else 40 * max(1, DEEP // 4), trigger_positions='all k <= 12, else 12 sampled')
 
 
 def chunks(tier, seed):
-    per = 3 if tier == 'quick' else 40
+    per = 3 if tier == 'quick' else 40 * max(1, DEEP // 4)
     out = []
     for op in OPS:
         for mode in ('autoref', 'bdd'):
